@@ -1195,6 +1195,80 @@ func msClock(out *vOut, r *vRng, n int, emit func(string, string, bool, any)) {
 			}
 		}
 	}
+
+	// zones with daylight saving: the offset that counts is the one in force AT THE INSTANT of the
+	// connection.  Instants lie in both halves of the year and within the hour around every 2026
+	// switch, in northern and southern zones and in Local (set to a DST zone for the duration);
+	// windows have their edges half an hour around the local time of the instant.
+	savedLocal := time.Local
+	defer func() { time.Local = savedLocal }()
+	dstZones := []string{"America/New_York", "Europe/Berlin", "Australia/Sydney", "Pacific/Auckland", "America/Santiago", "Europe/London", "Local"}
+	if ny, err := time.LoadLocation("America/New_York"); err == nil {
+		time.Local = ny
+	}
+	utc := func(y int, mo time.Month, d, h, mi int) int64 {
+		return time.Date(y, mo, d, h, mi, 0, 0, time.UTC).Unix()
+	}
+	instants := []int64{
+		utc(2026, 1, 15, 2, 0), utc(2026, 1, 15, 14, 30), utc(2026, 7, 15, 2, 0), utc(2026, 7, 15, 14, 30),
+		utc(2026, 4, 20, 9, 15), utc(2026, 11, 20, 21, 45),
+		// US: 8 March 07:00Z and 1 November 06:00Z; EU: 29 March and 25 October 01:00Z
+		utc(2026, 3, 8, 6, 30), utc(2026, 3, 8, 7, 30), utc(2026, 11, 1, 5, 30), utc(2026, 11, 1, 6, 30),
+		utc(2026, 3, 29, 0, 30), utc(2026, 3, 29, 1, 30), utc(2026, 10, 25, 0, 30), utc(2026, 10, 25, 1, 30),
+		// Sydney: 4 April 16:00Z and 3 October 16:00Z; Auckland: 4 April 14:00Z and 26 September 14:00Z
+		utc(2026, 4, 4, 15, 30), utc(2026, 4, 4, 16, 30), utc(2026, 10, 3, 15, 30), utc(2026, 10, 3, 16, 30),
+		utc(2026, 4, 4, 13, 30), utc(2026, 4, 4, 14, 30), utc(2026, 9, 26, 13, 30), utc(2026, 9, 26, 14, 30),
+	}
+	for j := 0; j < 6; j++ {
+		instants = append(instants, utc(2026, time.Month(1+r.Intn(12)), 1+r.Intn(28), r.Intn(24), r.Intn(60)))
+	}
+	offsetsSeen := map[string]map[int]bool{}
+	for _, zname := range dstZones {
+		loc, err := time.LoadLocation(zname)
+		if err != nil {
+			out.Stat("clock_zone_unavailable_"+zname, err.Error())
+			continue
+		}
+		offsetsSeen[zname] = map[int]bool{}
+		for _, unix := range instants {
+			t := time.Unix(unix, 0).UTC()
+			lt := t.In(loc)
+			_, off := lt.Zone() // the offset in force at this instant
+			offsetsSeen[zname][off] = true
+			hh, mm, ss := lt.Clock()
+			sec := hh*3600 + mm*60 + ss
+			for _, d := range [][2]int{{-1800, 1800}, {1800, 5400}, {-5400, -1800}, {-3600, 1}, {1, 3600}} {
+				a, b := sec+d[0], sec+d[1]
+				if a < 0 || b > 86400 || a >= b {
+					continue
+				}
+				m := &l4clock.MatchClock{After: hms(a), Before: hms(b % 86400), Timezone: zname}
+				msMust(m.Provision(msCtx))
+				conn := msNewConn(false)
+				cx := layer4.WrapConnection(conn, []byte("x"), zap.NewNop())
+				repl := cx.Context.Value(layer4.ReplacerCtxKey).(*caddy.Replacer)
+				repl.Set("l4.conn.wrap_time", t)
+				v, dd := msEval(m, cx)
+				in := map[string]any{"matcher": "clock", "after": m.After, "before": m.Before, "timezone": zname, "unix": unix, "instant": t.Format(time.RFC3339), "local": lt.Format("15:04:05"), "offset_at_instant": off}
+				if v == vdPanic {
+					out.Fail("C04:clock:panic", dd, in)
+				}
+				ref := a <= sec && sec < b
+				if ref && v != vdYes {
+					out.Fail("C14:clock:rejects-valid", fmt.Sprintf("local time %s lies in [%s,%s) of zone %s but the matcher answered %s", lt.Format("15:04:05"), hms(a), hms(b%86400), zname, v), in)
+				}
+				if !ref && v == vdYes {
+					out.Fail("C14:clock:accepts-invalid", fmt.Sprintf("local time %s lies outside [%s,%s) of zone %s but the matcher answered Yes", lt.Format("15:04:05"), hms(a), hms(b%86400), zname), in)
+				}
+				emit(fmt.Sprintf("KClock %d %d %s %s %s", a, b%86400, cZ(int64(off)), cZ(unix), v), "clock-dst/"+v, true, in)
+			}
+		}
+	}
+	nOff := map[string]int{}
+	for z, m := range offsetsSeen {
+		nOff[z] = len(m)
+	}
+	out.Stat("clock_distinct_offsets_per_dst_zone", nOff)
 }
 
 // ---------------------------------------------------------------- remote_ip / local_ip
@@ -1294,6 +1368,101 @@ func msIP(out *vOut, r *vRng, n int, emit func(string, string, bool, any)) {
 					}
 				}
 				emit(fmt.Sprintf("KIp %s %s %s", msCIDRsCoq(cidrs), acoq, v), tag+"/"+v, perr == nil, in)
+			}
+		}
+
+		// addresses as the net package (and the proxy_protocol handler) hands them over: *net.TCPAddr and
+		// *net.UDPAddr values holding an IPv4 address in its 16-byte form (net.ParseIP), in its 4-byte
+		// form, IPv6 addresses and zoned addresses; under remote_ip, local_ip and not{remote_ip}
+		var ipHosts []string
+		for _, c := range cidrs {
+			a := c.pfx.Masked().Addr()
+			ipHosts = append(ipHosts, a.String(), a.Next().String(), a.Prev().String())
+		}
+		ipHosts = append(ipHosts, "10.1.2.3", "192.168.0.1", "127.0.0.1", "203.0.113.65", "8.8.8.8", "2001:db8::1", "fe80::1", "::1")
+		for hi, h := range ipHosts {
+			ip16 := net.ParseIP(h)
+			if ip16 == nil {
+				continue
+			}
+			forms := []net.IP{ip16}
+			if ip4 := ip16.To4(); ip4 != nil {
+				forms = append(forms, ip4)
+			}
+			for fi, ip := range forms {
+				zone := ""
+				if ip.To4() == nil && ip.IsLinkLocalUnicast() && hi%2 == 0 {
+					zone = "eth0"
+				}
+				port := 1 + r.Intn(65535)
+				addrs := []net.Addr{&net.TCPAddr{IP: ip, Port: port, Zone: zone}, &net.UDPAddr{IP: ip, Port: port, Zone: zone}}
+				for ai, addr := range addrs {
+					for mode := 0; mode < 3; mode++ { // remote_ip, local_ip, not{remote_ip}
+						if mode == 1 && (hi+fi+ai)%2 == 0 {
+							continue
+						}
+						conn := msNewConn(ai == 1)
+						var m layer4.ConnMatcher
+						tag := "remote_ip"
+						switch mode {
+						case 0, 2:
+							conn.remote = addr
+							mm := &layer4.MatchRemoteIP{Ranges: rs}
+							msMust(mm.Provision(msCtx))
+							m = mm
+							if mode == 2 {
+								tag = "not-remote_ip"
+								m = &layer4.MatchNot{MatcherSets: []layer4.MatcherSet{{mm}}}
+							}
+						case 1:
+							tag = "local_ip"
+							conn.local = addr
+							mm := &layer4.MatchLocalIP{Ranges: rs}
+							msMust(mm.Provision(msCtx))
+							m = mm
+						}
+						cx := layer4.WrapConnection(conn, []byte("x"), zap.NewNop())
+						v, d := msEval(m, cx)
+						in := map[string]any{"matcher": tag, "ranges": rs, "address": addr.String(), "addr_type": fmt.Sprintf("%T", addr), "ip_bytes": len(ip), "zone": zone}
+						if v == vdPanic {
+							out.Fail("C04:"+tag+":panic", d, in)
+						}
+						if conn.reads != 0 {
+							out.Fail("C06:"+tag+":network-read", "Match read the socket", in)
+						}
+						// the address of the connection is the one its textual form denotes
+						host, _, herr := net.SplitHostPort(addr.String())
+						if herr != nil {
+							host = addr.String()
+						}
+						a, perr := netip.ParseAddr(host)
+						acoq := "None"
+						if perr == nil {
+							acoq = fmt.Sprintf("(Some (%s, %s, %s))", cBool(a.Is6()), msAddrZ(a), cBool(a.Zone() != ""))
+						}
+						mapped := false
+						for _, c := range cidrs {
+							mapped = mapped || c.pfx.Addr().Is4In6()
+						}
+						if zone == "" && !mapped {
+							ref := msCIDRsRef(cidrs, ip) // package net: the same for both byte forms of an IPv4 address
+							if mode == 2 {
+								ref = !ref
+							}
+							if ref && v != vdYes {
+								out.Fail("C14:"+tag+":rejects-valid", "reference (package net) says match, the matcher answered "+v, in)
+							}
+							if !ref && v == vdYes {
+								out.Fail("C14:"+tag+":accepts-invalid", "reference (package net) says no match, the matcher answered Yes", in)
+							}
+						}
+						ctor := "KIp"
+						if mode == 2 {
+							ctor = "KNotIp"
+						}
+						emit(fmt.Sprintf("%s %s %s %s", ctor, msCIDRsCoq(cidrs), acoq, v), tag+"/"+v, perr == nil, in)
+					}
+				}
 			}
 		}
 	}
